@@ -6,7 +6,7 @@ from collections import Counter
 
 import numpy as np
 
-from .. import gen, geom
+from .. import gen, geom, models
 from ..core import signature
 from ..monitor import Monitor
 
@@ -20,6 +20,7 @@ RULE = (
     'object holds at call time, distances from the image enumeration.  Non-trivial = at least two jumps, at least '
     'one event into or out of no-site and more than one label; distinct = SHA-1 of (states, sites, labels).'
 )
+RULE += ' Round 12: under default settings the jump matrix is also compared with the moves counted in the state history (C04 model), including atoms that only ever hop directly from site to site (p_direct 0.9 / 1.0 systems).'
 RULE += " Added in rounds 5-10: parts of Jumps.split recounted with the parent's minimal_residence; number of parts checked; sites holding more than one atom on average (loud refusal accepted, other numbers not)."
 ASSUMPTIONS = [
     'the event table and jump table themselves are judged by C03 / C04; here only aggregation',
@@ -245,7 +246,7 @@ def check_jumps(tr, j, sys_, occ, ctx, what, wit, rng):
 
 def run_unit(unit, rng, ctx):
     f = float(rng.choice([1.0, 1.0, 0.5]))
-    sys_ = gen.make_site_system(rng, T=int(rng.integers(12, 90)), inner_fraction=f, margin=0.04, p_move=float(rng.choice([0.15, 0.3, 0.5])), n_sites=int(rng.integers(2, 9)))
+    sys_ = gen.make_site_system(rng, T=int(rng.integers(12, 90)), inner_fraction=f, margin=0.04, p_move=float(rng.choice([0.15, 0.3, 0.5])), n_sites=int(rng.integers(2, 9)), p_direct=float(rng.choice([0.3, 0.3, 0.3, 0.9, 1.0])))
     if unit['i'] % 16 == 9 and sys_.n_floating >= 2:
         # a roomy site: the second diffusing atom sits in the same site as the first one (when that is at a site)
         inv_ = np.linalg.inv(sys_.matrix)
@@ -295,13 +296,29 @@ def run_unit(unit, rng, ctx):
                 if 'Not enough transitions' not in str(exc):
                     raise
         n_j = 0
+        mr_ = int(rng.choice([0, 0, 2, 3]))
+        # "recorded moves": with the default settings (inner fraction 1, no minimal residence) a move is a change of
+        # the last visited site in the state history (the C04 model), also for atoms that only ever hop directly
+        # from site to site and are never seen at no-site
+        moves = models.default_jumps(st_) if (f == 1.0 and mr_ == 0 and np.array_equal(st_, np.asarray(tr.inner_states))) else None
         try:
-            j = tr.jumps(minimal_residence=int(rng.choice([0, 0, 2, 3])))
+            j = tr.jumps(minimal_residence=mr_)
         except ValueError as exc:
             if 'No jumps found' not in str(exc):
                 raise
             j = None
             ctx.count('no_jumps')
+            if moves is not None:
+                ctx.check(len(moves) == 0, f'{what}: "No jumps found" although the state history holds {len(moves)} moves, e.g. {moves[:3]} (atom,origin,dest,start,stop)', wit)
+        if j is not None and moves is not None:
+            want_m = np.zeros((tr.n_sites, tr.n_sites), dtype=int)
+            for _a, o_, d_, _s, _e in moves:
+                want_m[o_, d_] += 1
+            got_m = np.asarray(j.matrix())
+            ctx.check(got_m.shape == want_m.shape and np.array_equal(got_m, want_m), f'{what}: jump matrix != number of moves per (origin, destination) in the state history; differs at {np.argwhere(got_m != want_m)[:4].tolist() if got_m.shape == want_m.shape else got_m.shape}', {**wit, 'got': got_m, 'want': want_m})
+            only_direct = [a_ for a_ in range(st_.shape[1]) if (st_[:, a_] >= 0).all() and len(set(st_[:, a_].tolist())) > 1]
+            ctx.count('atoms_that_only_hop_directly_between_sites', len(only_direct))
+            ctx.count('matrices_compared_with_moves_of_the_state_history')
         if j is not None:
             n_j = j.n_jumps
             check_jumps(tr, j, sys_, occ, ctx, what, wit, rng)
